@@ -464,3 +464,136 @@ func TestC18RPC(t *testing.T) {
 		return v
 	})
 }
+
+// ---- C18 parked: Cancel(key) while reads and writes on that key's connection are parked ------
+
+type C18Parked struct {
+	ParkedWrites int  `json:"parked_writes"` // writes parked behind a stalled shared transport (1..3)
+	ParkedRead   bool `json:"parked_read"`
+	OtherKey     bool `json:"other_key"` // traffic on another key must be unaffected
+	Ser          bool `json:"ser"`
+}
+
+func genC18Parked(t *rapid.T) C18Parked {
+	return C18Parked{ParkedWrites: rapid.IntRange(1, 3).Draw(t, "pw"), ParkedRead: rapid.Bool().Draw(t, "pr"), OtherKey: rapid.Bool().Draw(t, "ok"), Ser: rapid.Bool().Draw(t, "ser")}
+}
+
+func execC18Parked(t *testing.T, c C18Parked) (v Verdict) {
+	res := kit.Bubble(t, func() {
+		bg := context.Background()
+		shared := kit.NewLink("shared", kit.NewTap(), c.Ser)
+		var mu sync.Mutex
+		conns := map[string]goat.RpcReadWriter{}
+		announced := make(chan struct{}, 8)
+		dm := goat.NewDemux(bg, shared.B, func(r *goat.Rpc) string { return r.GetHeader().GetSource() }, func(rw goat.RpcReadWriter) {
+			r, err := rw.Read(bg) // learn the key from the first envelope
+			if err != nil {
+				return
+			}
+			mu.Lock()
+			conns[r.GetHeader().GetSource()] = rw
+			mu.Unlock()
+			announced <- struct{}{}
+		})
+		go dm.Run()
+		feed := func(k string, id uint64) {
+			_ = shared.A.Write(bg, &goat.Rpc{Id: id, Header: &goatorepo.RequestHeader{Method: "/x/y", Source: k, Destination: "srv"}})
+		}
+		feed("k0", 1)
+		kit.Settle()
+		if c.OtherKey {
+			feed("k1", 2)
+			kit.Settle()
+		}
+		mu.Lock()
+		rw0, rw1 := conns["k0"], conns["k1"]
+		mu.Unlock()
+		if rw0 == nil || (c.OtherKey && rw1 == nil) {
+			v.failf("logical connections were not announced")
+			return
+		}
+		// the shared transport's write side stalls: the key's writer goroutine parks inside it with the first
+		// write, further writes park on the logical connection
+		shared.B.Hold(func(*goat.Rpc) bool { return true })
+		type wres struct {
+			done bool
+			err  error
+		}
+		ws := make([]*wres, c.ParkedWrites+1)
+		for i := range ws {
+			ws[i] = &wres{}
+			i := i
+			go func() {
+				err := rw0.Write(bg, &goat.Rpc{Id: uint64(100 + i), Header: &goatorepo.RequestHeader{Method: "/x/y", Source: "srv", Destination: "k0"}})
+				mu.Lock()
+				ws[i].done, ws[i].err = true, err
+				mu.Unlock()
+			}()
+			kit.Settle()
+		}
+		rdone, rerr := false, error(nil)
+		if c.ParkedRead {
+			go func() {
+				_, err := rw0.Read(bg)
+				mu.Lock()
+				rdone, rerr = true, err
+				mu.Unlock()
+			}()
+			kit.Settle()
+		}
+		dm.Cancel("k0")
+		kit.Settle()
+		mu.Lock()
+		parkedStill := 0
+		for i, w := range ws {
+			if i == 0 {
+				continue // handed to the writer goroutine before the stall mattered; may have succeeded
+			}
+			if !w.done {
+				parkedStill++
+			} else if w.err == nil {
+				v.failf("a write parked on the logical connection succeeded after its key was cancelled")
+			}
+		}
+		if parkedStill > 0 {
+			v.failf("%d writes parked on logical connection k0 are still blocked after Cancel(k0)", parkedStill)
+		}
+		if c.ParkedRead && !rdone {
+			v.failf("a read parked on logical connection k0 is still blocked after Cancel(k0)")
+		} else if c.ParkedRead && rerr == nil {
+			v.failf("a read on the cancelled logical connection returned an envelope nobody sent")
+		}
+		mu.Unlock()
+		// new operations on the cancelled connection fail at once
+		if err := rw0.Write(bg, &goat.Rpc{Id: 999}); err == nil {
+			v.failf("write on the cancelled logical connection succeeded")
+		}
+		shared.B.Hold(nil)
+		for _, h := range shared.Held() {
+			h.Release()
+		}
+		kit.Settle()
+		if c.OtherKey {
+			feed("k1", 3)
+			kit.Settle()
+			got, err := rw1.Read(bg)
+			if err != nil || got.GetId() != 3 {
+				v.failf("traffic of another key was disturbed by the cancellation: %v", err)
+			}
+			if err := rw1.Write(bg, &goat.Rpc{Id: 4, Header: &goatorepo.RequestHeader{Source: "srv", Destination: "k1"}}); err != nil {
+				v.failf("write on another key failed: %v", err)
+			}
+			kit.Settle()
+		}
+		dm.Stop()
+		shared.Close()
+		kit.Settle()
+	})
+	if res.Panic != nil {
+		v.failf("panic: %v\n%s", res.Panic, res.Stack)
+	}
+	v.Info = kit.CaseInfo{Labels: []string{"parked", fmt.Sprintf("parked_read=%v", c.ParkedRead)}, NonTrivial: true, Key: fmt.Sprintf("%+v", c), Sample: c}
+	return
+}
+
+func TestC18Parked(t *testing.T) { checkProp(t, "C18", "parked", genC18Parked, execC18Parked) }
